@@ -227,7 +227,17 @@ Fixpoint conn_script (r : cres) (ops : list cop) : res (list cobs * cres) :=
         match natural_event st with
         | None => conn_script r rest
         | Some ev =>
-          let (r', obs) := conn_step st ev all_ok in
+          let (r1, obs1) := conn_step st ev all_ok in
+          (* the event loop runs until nothing is runnable: an immediate event registered by
+             this step (list exhausted) is dispatched in the same run *)
+          let (r', obs) :=
+            match r1 with
+            | Running st1 =>
+              if c_imm st1 && negb (c_imm st) then
+                let (r2, obs2) := conn_step st1 EvImmediate all_ok in (r2, obs1 ++ obs2)
+              else (r1, obs1)
+            | Finished _ => (r1, obs1)
+            end in
           match conn_script r' rest with
           | Ok (t, fin) => Ok (obs ++ t, fin)
           | Fault => Fault | AssertFail => AssertFail | OutOfFuel => OutOfFuel
